@@ -156,6 +156,11 @@ func (changes *Changes) AbsFiles() []FileListChangesFileHash {
 func (changes *Changes) GetDSC() (*DSC, error) {
 	for _, file := range changes.Files {
 		if strings.HasSuffix(file.Filename, ".dsc") {
+			if err := internal.CheckFilename(file.Filename); err != nil {
+				/* the .dsc lives next to the .changes, like every
+				 * other listed file */
+				return nil, err
+			}
 
 			// Right, now lets resolve the absolute path.
 			baseDir := filepath.Dir(changes.Filename)
